@@ -67,4 +67,98 @@ var targets = []Target{
 		Dir:    "internal/caching",
 		Funcs:  []string{"ascii2Int", "DJBHash32"},
 	},
+	// ---- abstract-environment mode (abs.go): decision functions over option structs / descriptors ----
+	{
+		// flag bits shared with native/thrift.h
+		Module: "Gen_nativetypes",
+		Dir:    "internal/native/types",
+		Consts: []string{"F_ALLOW_UNKNOWN", "F_WRITE_DEFAULT", "F_VALUE_MAPPING", "F_HTTP_MAPPING", "F_STRING_INT", "F_WRITE_REQUIRE",
+			"F_NO_BASE64", "F_WRITE_OPTIONAL", "F_TRACE_BACK"},
+	},
+	{
+		// C02 / C16 / C17: option -> native flag bits
+		Module: "Gen_j2tflags",
+		Dir:    "conv/j2t",
+		Mode:   "abs",
+		Funcs:  []string{"toFlags"},
+	},
+	{
+		// C16 / C11 / C14: requiredness -> bitmap value, and the decisions taken for a marked bit
+		Module: "Gen_thriftreq",
+		Dir:    "thrift",
+		Mode:   "abs",
+		Consts: []string{"OptionalRequireness", "DefaultRequireness", "RequiredRequireness"},
+		Funcs:  []string{"convertRequireness"},
+		Blocks: []Block{
+			{Func: "RequiresBitmap.CheckRequires", Name: "CheckRequires_marked", Anchor: "v%2 == 1"},
+			{Func: "RequiresBitmap.HandleRequires", Name: "HandleRequires_marked", Anchor: "v%2 == 1"},
+		},
+	},
+	{
+		// C15 / C07 / C20: kind tables of the Protobuf descriptors
+		Module: "Gen_protokind",
+		Dir:    "proto",
+		Mode:   "abs",
+		Funcs: []string{"Type.TypeToKind", "Type.IsPacked", "TypeDescriptor.IsPacked", "TypeDescriptor.IsMap",
+			"TypeDescriptor.IsList", "TypeDescriptor.WireType"},
+		Tables: []string{"Kind2Wire"},
+	},
+	{
+		// C19: in-place leaf writers of the Thrift binary encoding, and the call sequences / header arithmetic of the message, field,
+		// map, list and set envelopes (the Write* / Read* primitives they call are effects resp. oracle inputs)
+		Module:  "Gen_thriftbin",
+		Dir:     "thrift",
+		Mode:    "abs",
+		Prelude: absSlicePrelude,
+		Consts:  []string{"VERSION_1", "VERSION_MASK"},
+		Funcs: []string{"Type.Valid",
+			"BinaryEncoding.EncodeBool", "BinaryEncoding.EncodeByte", "BinaryEncoding.EncodeInt16", "BinaryEncoding.EncodeInt32",
+			"BinaryEncoding.EncodeInt64", "BinaryEncoding.EncodeDouble", "BinaryEncoding.EncodeString", "BinaryEncoding.EncodeBinary",
+			"BinaryEncoding.EncodeFieldBegin",
+			"BinaryProtocol.WriteMessageBegin", "BinaryProtocol.ReadMessageBegin",
+			"BinaryProtocol.WriteFieldBegin", "BinaryProtocol.WriteFieldStop", "BinaryProtocol.WriteMapBegin", "BinaryProtocol.WriteListBegin",
+			"BinaryProtocol.WriteSetBegin",
+			"BinaryProtocol.ReadFieldBegin", "BinaryProtocol.ReadMapBegin", "BinaryProtocol.ReadListBegin", "BinaryProtocol.ReadSetBegin"},
+	},
+	{
+		// C03 / C18: tables of the portable JSON string quoting
+		Module: "Gen_rt",
+		Dir:    "internal/rt",
+		Mode:   "abs",
+		Tables: []string{"SafeSet", "Hex"},
+	},
+	{
+		// C02 / C03: JSON whitespace
+		Module: "Gen_json",
+		Dir:    "internal/json",
+		Mode:   "abs",
+		Consts: []string{"_blankCharsMask"},
+		Funcs:  []string{"IsSpace"},
+	},
+	{
+		// C18 / C03: the per-byte steps of the portable quoteString (internal/json/api_compat.go, excluded from amd64 builds)
+		Module:   "Gen_jsonportable",
+		Dir:      "internal/json",
+		GOARCH:   "arm64",
+		Mode:     "abs",
+		Requires: []string{"Gen_rt"},
+		Blocks: []Block{
+			{Func: "quoteString", Name: "quoteString_ascii", Anchor: "b < utf8.RuneSelf"},
+			{Func: "quoteString", Name: "quoteString_linesep", Anchor: "c == '\\u2028' || c == '\\u2029'"},
+		},
+	},
+	{
+		// C16 / C11: the zero value written for an absent field (WriteEmpty: type dispatch over the write primitives)
+		Module: "Gen_thriftempty",
+		Dir:    "thrift",
+		Mode:   "abs",
+		Funcs:  []string{"BinaryProtocol.WriteEmpty"},
+	},
+	{
+		// ... and the primitives it uses that are themselves one call (each level is translated where its callees are effects)
+		Module: "Gen_thriftends",
+		Dir:    "thrift",
+		Mode:   "abs",
+		Funcs:  []string{"BinaryProtocol.WriteBool", "BinaryProtocol.WriteStructEnd", "BinaryProtocol.WriteListEnd", "BinaryProtocol.WriteMapEnd"},
+	},
 }
